@@ -101,10 +101,26 @@ impl Outcome {
 }
 
 fn death_class(status: &str, stderr: &str) -> String {
-    if let Some(l) = stderr.lines().find(|l| l.starts_with("OVERCAP ")) {
-        let n: u64 = l[8..].trim().parse().unwrap_or(0);
-        let mag = if n >= 1 << 40 { "TiB+" } else if n >= 1 << 30 { "GiB+" } else { "MiB+" };
-        return format!("process-death:allocation-over-cap({mag})");
+    if stderr.lines().any(|l| l.starts_with("OVERCAP ")) {
+        let site = stderr
+            .lines()
+            .find(|l| l.starts_with("OVERCAP-VIA "))
+            .and_then(|l| l[12..].split(" <- ").next())
+            .map(|f| {
+                let mut out = String::new();
+                let mut depth = 0;
+                for c in f.chars() {
+                    match c {
+                        '<' => depth += 1,
+                        '>' => depth -= 1,
+                        _ if depth == 0 => out.push(c),
+                        _ => {}
+                    }
+                }
+                out
+            })
+            .unwrap_or_else(|| "?".into());
+        return format!("process-death:allocation-over-cap@{site}");
     }
     if status == "hang" {
         return "process-death:hang".to_string();
@@ -291,8 +307,10 @@ fn fan(def: &CheckDef, tier: Tier, seed: u64, runs: u64, workers: usize, cap_s: 
         runs,
         workers,
         wall_cap: Duration::from_secs(cap_s),
-        hang_s: simcore::env_u64("VERIF_HANG_S", 30),
-        max_deaths_per_worker: 8,
+        // C07 trials are millisecond-scale and may spin without any storage call on damaged data:
+        // a short silence window keeps such observations cheap
+        hang_s: simcore::env_u64("VERIF_HANG_S", if def.id == "C07" { 4 } else { 30 }),
+        max_deaths_per_worker: 30,
         stop_on_first_violation: stop_first,
     })
 }
@@ -372,13 +390,18 @@ pub fn check(id: &str, tier: Tier) -> i32 {
         }
     }
     let mut hang_obs = 0u64;
+    let mut death_hist: BTreeMap<String, u64> = BTreeMap::new();
     for d in &out.deaths {
         let class = death_class(&d.status, &d.detail);
+        *death_hist.entry(class.clone()).or_insert(0) += 1;
+        if std::env::var("VERIF_DEBUG").is_ok() {
+            println!("death: run {} trial {} {class}", d.run, d.trial);
+        }
         if class.ends_with("hang") && !def_hang_is_violation(id) {
             hang_obs += 1;
             continue;
         }
-        cands.push((d.run, d.trial, class, format!("worker died in run {} trial {}: {}", d.run, d.trial, d.detail.lines().last().unwrap_or("")), (def.generate)(seed, d.run, tier)));
+        cands.push((d.run, d.trial, class, format!("worker died in run {} trial {}: {}", d.run, d.trial, d.detail.lines().filter(|l| l.starts_with("OVERCAP") || l.contains("panicked") || l.contains("memory allocation")).collect::<Vec<_>>().join(" | ")), (def.generate)(seed, d.run, tier)));
     }
     cands.sort_by(|a, b| (a.0, a.1).cmp(&(b.0, b.1)));
     let known_hits = cands.iter().filter(|c| known_sigs.contains(&c.2)).count() as u64;
@@ -412,6 +435,7 @@ pub fn check(id: &str, tier: Tier) -> i32 {
     extra.insert("components_real".into(), json!(def.real));
     extra.insert("components_stub".into(), json!(def.stub));
     extra.insert("worker_deaths".into(), json!(out.deaths.len()));
+    extra.insert("worker_deaths_by_class".into(), json!(death_hist));
     extra.insert("hang_observations".into(), json!(hang_obs));
     extra.insert("known_finding_hits".into(), json!(known_hits));
     extra.insert("runs_cut_by_known_finding".into(), json!(agg.known_cut));
